@@ -114,4 +114,92 @@ theorem NoAdjacentText.append {d d' : Dom} (hw : WF d) (hn : NoAdjacentText d) {
       simp [noAdj, headT, hct]
     · simp only [hq, if_false]; exact hn q
 
+/-- `append_before_sibling` with text keeps "no adjacent text siblings": it merges into a text
+previous sibling, and the reference sibling is not a text node by contract -/
+theorem NoAdjacentText.appendBeforeSibling_text {d d' : Dom} (hw : WF d) (hn : NoAdjacentText d) {s : Id} {t : Str}
+    (hc : d.contractAppendBeforeSibling s (.text t) = true) (h : d.appendBeforeSibling s (.text t) = .ok d') :
+    NoAdjacentText d' := by
+  obtain ⟨P, i, hpar, hi, hPlt, hm⟩ := appendBeforeSibling_ok h
+  simp only [Dom.contractAppendBeforeSibling, hpar, Bool.and_eq_true] at hc
+  have hsib := isText_of_insertable hc.1
+  rcases hm with ⟨prev, old, _, _, hdl, hs, hd, _⟩ | ⟨hprev, h2⟩
+  · exact hn.textChange hs hdl hd
+  · obtain ⟨_, _, hch, hd, _, _⟩ := insertAtIndex_fresh_ok h2
+    refine hn.insertFresh hw hch hd ⟨?_, ?_⟩
+    · have : lastT d.isText ((d.childrenOf P).take i) = false := by
+        rcases hprev with h0 | ⟨prev, hp1, hp2⟩
+        · subst h0; simp [lastT]
+        · by_cases h0 : i = 0
+          · subst h0; simp [lastT]
+          · rw [lastT_take (Nat.pos_of_ne_zero h0) hp1]; exact hp2
+      rw [this]; rfl
+    · have : headT d.isText ((d.childrenOf P).drop i) = false := by
+        unfold headT
+        rw [List.head?_drop, indexOf?_getElem hi]
+        exact hsib
+      rw [this]; simp
+
+/-- **when `remove_from_parent` breaks "no adjacent text siblings"**: exactly when the removed node's
+previous and next siblings are both text nodes -/
+theorem removeFromParent_noAdjacentText_iff {d d' : Dom} (hn : NoAdjacentText d) {t p : Id} {i : Nat}
+    (hpar : d.parentOf t = some p) (hi : indexOf? t (d.childrenOf p) = some i)
+    (h : d.removeFromParent t = .ok d') :
+    NoAdjacentText d' ↔ ¬ (lastT d.isText ((d.childrenOf p).take i) = true ∧
+      headT d.isText ((d.childrenOf p).drop (i + 1)) = true) := by
+  rcases removeFromParent_ok h with ⟨h0, _⟩ | ⟨p', i', hpar', hi', _, hch, hd, _, _⟩
+  · rw [hpar] at h0; cases h0
+  · rw [hpar] at hpar'; cases hpar'
+    rw [hi] at hi'; cases hi'
+    have htd := noAdj_take_drop (hn p)
+    have key : noAdj d.isText (removeAt (d.childrenOf p) i) =
+        !(lastT d.isText ((d.childrenOf p).take i) && headT d.isText ((d.childrenOf p).drop (i + 1))) := by
+      unfold removeAt
+      rw [noAdj_append, (htd i).1, (htd (i + 1)).2]; simp
+    constructor
+    · intro hn' hboth
+      have := hn' p
+      rw [hch, noAdj_congr (isT := d.isText) (fun x _ => isText_congr (hd x))] at this
+      simp only [if_true] at this
+      rw [key, hboth.1, hboth.2] at this
+      cases this
+    · intro hnot q
+      rw [hch, noAdj_congr (isT := d.isText) (fun x _ => isText_congr (hd x))]
+      by_cases hq : q = p
+      · subst hq
+        simp only [if_true]
+        rw [key]
+        cases h1 : lastT d.isText ((d.childrenOf q).take i) <;>
+          cases h2 : headT d.isText ((d.childrenOf q).drop (i + 1)) <;> simp
+        exact hnot ⟨h1, h2⟩
+      · simp only [hq, if_false]; exact hn q
+
+/-- **when `reparent_children` breaks "no adjacent text siblings"**: exactly when the new parent's
+last child and the first moved child are both text nodes -/
+theorem reparentChildren_noAdjacentText_iff {d d' : Dom} (hn : NoAdjacentText d) {n np : Id}
+    (h : d.reparentChildren n np = .ok d') :
+    NoAdjacentText d' ↔ ¬ (lastT d.isText (d.childrenOf np) = true ∧ headT d.isText (d.childrenOf n) = true) := by
+  obtain ⟨hne, _, _, _, hch, hd, _, _⟩ := reparentChildren_ok h
+  have key : noAdj d.isText (d.childrenOf np ++ d.childrenOf n) =
+      !(lastT d.isText (d.childrenOf np) && headT d.isText (d.childrenOf n)) := by
+    rw [noAdj_append, hn np, hn n]; simp
+  have hnp : np ≠ n := fun e => hne e.symm
+  constructor
+  · intro hn' hboth
+    have := hn' np
+    rw [hch, noAdj_congr (isT := d.isText) (fun x _ => isText_congr (hd x))] at this
+    simp only [hnp, if_false, if_true] at this
+    rw [key, hboth.1, hboth.2] at this
+    cases this
+  · intro hnot q
+    rw [hch, noAdj_congr (isT := d.isText) (fun x _ => isText_congr (hd x))]
+    by_cases hq : q = n
+    · simp [hq, noAdj]
+    · by_cases hq2 : q = np
+      · subst hq2
+        simp only [hq, if_false, if_true]
+        rw [key]
+        cases h1 : lastT d.isText (d.childrenOf q) <;> cases h2 : headT d.isText (d.childrenOf n) <;> simp
+        exact hnot ⟨h1, h2⟩
+      · simp only [hq, hq2, if_false]; exact hn q
+
 end H5V.Lemmas.Dom
